@@ -666,7 +666,8 @@ def run_case(case):
 # ------------------------------------------------------------------ generators
 
 E_OPS = [
-    ['accept', None, None], ['accept', 'chat', ['list', [['X-A', '1']]]], ['close', None, None], ['close', 999, None], ['close', 3000, 'bye'],
+    ['accept', None, None], ['accept', 'chat', ['list', [['X-A', '1']]]], ['accept', None, ['list', [['Set-Cookie', 'a=1'], ['Set-Cookie', 'b=2']]]],
+    ['close', None, None], ['close', 999, None], ['close', 3000, 'bye'],
     ['send_text', 'hi'], ['send_text', 5], ['send_data', ['b', '00ff']], ['send_media', {'a': [1, 'é']}],
     ['receive_text'], ['receive_data'], ['receive_media'],
     ['raise_http_error', 403], ['raise_http_status', 204], ['raise_exception'], ['raise_disconnected', 1001],
@@ -736,7 +737,9 @@ _text = st.sampled_from(['hi', '', 'é€😀', '{"a": 1}', '"s"', 'plain'])
 _bytes = st.sampled_from([['b', ''], ['b', '00ff'], ['ba', '0102'], ['mv', '61']])
 _media = st.sampled_from([{'a': 1}, [1, 2, 'é'], 'str', 5, None, {'n': {'x': [True, None]}}])
 _hdrs = st.one_of(st.none(), st.none(), st.just(['list', [['X-A', '1']]]), st.just(['dict', [['x-b', '2'], ['X-C', '3']]]),
-                  st.just(['list', [['Sec-WebSocket-Protocol', 'x']]]), st.just(['list', []]))
+                  st.just(['list', [['Sec-WebSocket-Protocol', 'x']]]), st.just(['list', []]),
+                  # the same header name more than once: a list of pairs keeps every pair, in order
+                  st.just(['list', [['Set-Cookie', 'a=1'], ['X-T', 'abc'], ['Set-Cookie', 'b=2']]]))
 _op = st.one_of(
     st.tuples(st.just('accept'), st.sampled_from([None, None, 'chat', 7]), _hdrs),
     st.tuples(st.just('accept'), st.none(), st.none()),
